@@ -46,7 +46,7 @@ pub fn generic_replay(case: &Value) -> Option<String> {
         Some("archive") => props::c16::replay(case),
         Some("cli") => props::c17::replay(case),
         Some("convert") => props::c19::replay(case),
-        Some("sanitize") | Some("sanitize_history") => props::c15::replay(case),
+        Some("sanitize") | Some("sanitize_history") | Some("c15big") => props::c15::replay(case),
         Some("unsafe_ex") | Some("unsafe_ex_history") => props::c18::replay(case),
         Some("colour") | Some("colour_ext") | Some("c20big") => props::c20::replay(case),
         other => Some(format!("unknown replay kind {other:?}")),
